@@ -38,7 +38,14 @@ inline std::string gen_name(Tape& t)
     case 4: return "trailing blanks  ";
     case 5: return std::string(200, 'x');
     case 6: return " ";
-    default: return "d sigma / d x [fb/GeV] #" + std::to_string(t.range(0, 9));
+    default:
+    {
+        std::uint64_t const k = t.range(0, 9);
+        if (k == 7) { return "tab\tinside"; }
+        if (k == 8) { return "ends with a carriage return\r"; }
+        if (k == 9) { return "\x01 control \x1b[1m and high bytes \xc3\xa9\x7f"; }
+        return "d sigma / d x [fb/GeV] #" + std::to_string(k);
+    }
     }
 }
 
